@@ -196,7 +196,7 @@ def program_job(jid, forms, use_sugar=False, texts=None, stack_probe=False):
     return {"id": jid, "kind": "session", "steps": steps}
 
 
-def form_events(forms, result):
+def form_events(forms, result, anykind=False):
     """harness result of program_job -> trace events for MachineTrace (one per evaluated form)"""
     ev = [{"ev": "reset"}]
     rs = result["results"][1:]
@@ -204,7 +204,7 @@ def form_events(forms, result):
         if k >= len(rs):
             break
         o = rs[k]
-        ev.append({"ev": "form", "ast": f, "obs": to_spec_outcome(o),
+        ev.append({"ev": "form", "ast": f, "obs": to_spec_outcome(o), "anykind": anykind,
                    "ticks": [to_spec_value(t) for t in o.get("ticks", [])],
                    "ids": vec_ids(o["v"]) if o.get("k") == "value" else []})
         if o.get("k") in ("panic", "abort", "timeout"):
@@ -240,7 +240,7 @@ def match(s, o):
 
 
 def kind_ok(spec, obs):
-    return spec == obs or (spec == "WrongType" and obs == "NonProcedure") or ("|" in spec and obs in spec.split("|"))
+    return spec == obs or spec == "AnyError" or (spec == "WrongType" and obs == "NonProcedure") or ("|" in spec and obs in spec.split("|"))
 
 
 def outcome_ok(r, o):
